@@ -15,7 +15,7 @@ pub fn run(mode: &str, a: &Args) -> i32 {
     }
 }
 
-const KINDS: [(&str, &str); 19] = [
+const KINDS: [(&str, &str); 20] = [
     ("map", "a: 1\n"),
     ("seq", "[1, 2]\n"),
     ("scalar", "hello\n"),
@@ -38,6 +38,8 @@ const KINDS: [(&str, &str); 19] = [
     // a second document that fails before it produces any event
     ("stray_close", "]\n"),
     ("bare_alias", "*nowhere\n"),
+    // a type error AFTER alias replay used up the whole (tightened) replay allowance: the next document starts afresh
+    ("alias_then_type_err", "a: &x 7\nq: [*x, *x, *x]\nb: [1]\n"),
 ];
 
 fn stream_of(seq: &[usize], explicit_first: bool) -> String {
@@ -88,7 +90,9 @@ fn generate(a: &Args) -> i32 {
             for (ti, ty) in tys.iter().enumerate() {
                 let cfg = Cfg { dup: 0, legacy_octal: false, strict_bool: false, ignore_binary: false, no_schema: false,
                                 // default budget / no budget / a depth limit that one document may reach but two together exceed
-                                budget: match (n + ti as u64) % 3 { 0 => Some(Budget::default()), 1 => None, _ => Some(Budget { max_depth: 3, ..Budget::default() }) }, limits: AliasLimits::default() };
+                                budget: match (n + ti as u64) % 4 { 0 | 3 => Some(Budget::default()), 1 => None, _ => Some(Budget { max_depth: 3, ..Budget::default() }) },
+                                // … / a replay allowance that one document may use up but two together exceed
+                                limits: if (n + ti as u64) % 4 == 3 { AliasLimits { max_total_replayed_events: 3, ..AliasLimits::default() } } else { AliasLimits::default() } };
                 n += 1;
                 let multi = run_multi(&text, ty, &cfg);
                 let iter = run_iter(&text, ty, &cfg);
@@ -144,7 +148,7 @@ fn generate(a: &Args) -> i32 {
     let nt = sink.stats.get("distinct_nontrivial").copied().unwrap_or(0);
     sink.finish(&a.out, "docs", serde_json::json!({
         "distinct_nontrivial": nt,
-        "rule": "every sequence of document kinds up to length 2 (quick: plus a third of length 3; thorough: all of length 3 and a quarter of length 4) over 19 kinds (valid map/seq/scalar, empty, ~, null, anchor-defining (scalar anchor; container-only anchor), aliasing an earlier document's anchor, type error after consumed events, type errors raised on a merely PEEKED event (unit given a value, unit variant given a payload), unterminated flow, with `...`, trailing comment, syntax error, duplicate key, documents that fail before producing an event (stray `]`, alias to nothing)), with and without a leading `---`, x {untyped, struct, struct with unit / enum fields} target x {default budget, no budget, max_depth 3}: batch (from_multiple), iterator (read) and single-document entry point vs the model; oracle: batch = list of per-document results, iterator = batch when nothing fails, single rejects a second document, anchors invisible across documents, iterator resumes after a type-level error. Non-trivial = streams with more than one document.",
+        "rule": "every sequence of document kinds up to length 2 (quick: plus a third of length 3; thorough: all of length 3 and a quarter of length 4) over 20 kinds (a type error after alias replay used up a tightened replay allowance, valid map/seq/scalar, empty, ~, null, anchor-defining (scalar anchor; container-only anchor), aliasing an earlier document's anchor, type error after consumed events, type errors raised on a merely PEEKED event (unit given a value, unit variant given a payload), unterminated flow, with `...`, trailing comment, syntax error, duplicate key, documents that fail before producing an event (stray `]`, alias to nothing)), with and without a leading `---`, x {untyped, struct, struct with unit / enum fields} target x {default budget, no budget, max_depth 3, max_total_replayed_events 3}: batch (from_multiple), iterator (read) and single-document entry point vs the model; oracle: batch = list of per-document results, iterator = batch when nothing fails, single rejects a second document, anchors invisible across documents, iterator resumes after a type-level error. Non-trivial = streams with more than one document.",
     }));
     0
 }
